@@ -430,6 +430,22 @@ func crashCase(steps []step, n, me int) (points int, dvs []*divergence) {
 				}
 			}
 		}
+		// the height index and the chain status are one atomic commit: the whole persisted index (entries above the
+		// best height included) is the one the crash-free node had with that best block
+		ref, refName := before, "before"
+		if got.Best != before.Best {
+			ref, refName = after, "after"
+		}
+		torn := false
+		for h := 0; h <= maxH && !torn; h++ {
+			if got.Idx[h] != ref.Idx[h] {
+				dvs = append(dvs, &divergence{last, "C19", "index-torn", fmt.Sprintf("%s: after restart the best block is %d (as %s the call) but the stored height index has block %d at height %d where the crash-free node had %d: the index and the chain status were not committed together", what, got.Best, refName, got.Idx[h], h, ref.Idx[h])})
+				torn = true
+			}
+		}
+		if torn {
+			continue
+		}
 		if !in(got.Root, before.Root, after.Root) {
 			dvs = append(dvs, &divergence{last, "C19", "finalized", fmt.Sprintf("%s: last finalized checkpoint after restart is %d, the crash-free node had %d before and %d after the call", what, got.Root, before.Root, after.Root)})
 			continue
